@@ -1219,7 +1219,7 @@ def build_units(tier, seed):
             else:
                 fns = ["copy_fs"]
                 bound = 2 if nf < 2 or n == 1 else 1
-                cap = 600
+                cap = 1200
             for fn in fns:
                 case = dict(function=fn, workers=n, tree=tree, chunk=SMALL_CHUNK, grain="io",
                             preserve_time=(ti % 2 == 0))
@@ -1238,7 +1238,7 @@ def build_units(tier, seed):
                     add_dfs("bounded-io-fault", case, (2 if nf < 3 else 1) if thorough else 1,
                             4500 if thorough else 150)
     # phase 3: random schedules, bigger cases
-    total = 260000 if thorough else 12000
+    total = 260000 if thorough else 20000
     per = 1000 if thorough else 400
     for i in range(total // per):
         units.append(dict(kind="random", seed=seed * 1000003 + i, count=per, thorough=thorough))
@@ -1277,9 +1277,13 @@ def explore(tier, seed, procs=None, budget_s=None):
     else:
         import multiprocessing
         ctx = multiprocessing.get_context("fork")
-        # interleave the kinds so that a budget cut never removes a whole phase
-        order = sorted(range(len(units)), key=lambda i: (i % 7, i))
-        units = [units[i] for i in order]
+        # the complete enumerations first (all parts of one case together), then the fault
+        # enumerations and the random batches interleaved, so that a cut by the time budget
+        # on a slow machine thins the sampled part instead of removing a phase
+        first = [u for u in units if u.get("phase") in ("exhaustive-queue", "bounded-io")]
+        rest = [u for u in units if u.get("phase") not in ("exhaustive-queue", "bounded-io")]
+        rest = [rest[i] for i in sorted(range(len(rest)), key=lambda i: (i % 11, i))]
+        units = first + rest
         pool = ctx.Pool(procs)
         try:
             it = pool.imap_unordered(run_unit, units, chunksize=1)
@@ -1361,8 +1365,8 @@ def shrink(case, schedule, kinds, budget=150):
                     break
         if progress:
             continue
-        for key, val in (("preserve_time", False), ("dst_pre", None), ("backend", "memory"),
-                         ("chunk", None), ("grain", "queue")):
+        for key, val in (("fault", None), ("preserve_time", False), ("dst_pre", None),
+                         ("backend", "memory"), ("chunk", None), ("grain", "queue")):
             if c[key] != val:
                 c2 = dict(c, **{key: val})
                 for s2 in (s, []):
@@ -1586,13 +1590,20 @@ def run(report):
 def replay(report, path):
     with open(path) as fh:
         data = json.load(fh)
-    if data.get("no_failing_input_found") or "function" not in data:
+    if "function" not in data:
         print("replay: no concrete case stored in", path)
         return 0
     case = dict((k, data[k]) for k in norm_case({}) if k in data)
     schedule = data.get("schedule", [])
     res = execute(case, schedule)
     got = judge(case, res)
+    if data.get("kind") == "correspondence-broken":
+        tr = model_trace(norm_case(case), res)
+        n, bad = model_check([tr] if tr is not None else [], "replay")
+        print("replay (model vs implementation) %s workers=%s: %d trace replayed on "
+              "Conc/Copier.v, %d mismatch%s" % (case.get("function"), case.get("workers"), n,
+                                                len(bad), "" if not bad else " code %s" % bad[0][1]))
+        return 1 if (bad or got) else 0
     print("replay %s workers=%s files=%d fault=%s schedule=%s" % (
         case.get("function"), case.get("workers"), len(case.get("tree", {}).get("files", [])),
         case.get("fault"), schedule))
